@@ -84,6 +84,19 @@ def idbdrive_path(flavor="asan"):
     return exe
 
 
+def run(cmd, **kw):
+    """core.run, tolerant of the harness binary being rebuilt in place by a concurrent check (the tree under
+    test changed): 'Permission denied' / 'Text file busy' while g++ rewrites it is retried, not an error."""
+    import time
+    for attempt in range(30):
+        try:
+            return core.run(cmd, **kw)
+        except core.HarnessError as ex:
+            if "cannot start" not in str(ex) or attempt == 29:
+                raise
+            time.sleep(2)
+
+
 def hexs(b):
     """token encoding of a string argument of an idbdrive script (None -> NULL)."""
     if b is None:
